@@ -240,6 +240,58 @@ def run_file(f, props, args, summary):
         shutil.rmtree(wt, ignore_errors=True)
 
 
+def recheck_file(f, props, args, summary):
+    """Re-runs the checks (not the tests) for every mutant of f recorded as survived/other and rewrites the file
+    with a "recheck" field, so that gaps closed after the sweep show up as caught."""
+    slug = f.replace("/", "_")
+    path = os.path.join(HERE, "mutsweep", slug + ".jsonl")
+    if not os.path.exists(path):
+        return
+    recs = [json.loads(l) for l in open(path) if l.strip()]
+    todo = [r for r in recs if r["status"] in ("survived", "other") and r.get("recheck", {}).get("status") != "caught"]
+    if not todo:
+        return
+    wt = "/var/tmp/mutsweep-%d-%s" % (os.getpid(), slug)
+    subprocess.run(["git", "-C", "/repo", "worktree", "add", "-q", "--detach", wt, "HEAD"], check=True)
+    try:
+        src = open(os.path.join(wt, f)).readlines()
+        for r in todo:
+            cand = (r["line"] - 1, r["op"], r.get("col"))
+            if cand[0] >= len(src) or src[cand[0]].strip() != r["old"]:
+                r["recheck"] = {"status": "source-changed"}
+                continue
+            mut = apply(src, cand)
+            open(os.path.join(wt, f), "w").writelines(mut)
+            rc, out = sh(["go", "build", "./" + os.path.dirname(f)], wt, 300)
+            if rc != 0:
+                r["recheck"] = {"status": "stillborn"}
+                continue
+            res = {"status": "survived", "checks": {}}
+            for pid in props:
+                rc, out = sh("VERIF_REPO=%s %s/check %s %s 2>&1 | grep -v '^KNOWN' | cut -c1-400" % (wt, HERE, pid, args.tier), HERE, 3600)
+                last = out.strip().splitlines()[-1] if out.strip() else ""
+                if "VIOLATION" in out:
+                    res = {"status": "caught", "caught_by": pid, "sigs": sorted(set(re.findall(r"sig=(\S+)", out)))[:6]}
+                    break
+                res["checks"][pid] = last[:160]
+                if not last.startswith("HELD"):
+                    res["status"] = "other"
+            r["recheck"] = res
+            for d in os.listdir(os.path.join(HERE, ".build")):
+                if os.path.basename(wt) in d:
+                    shutil.rmtree(os.path.join(HERE, ".build", d), ignore_errors=True)
+            with summary["lock"]:
+                summary[res["status"]] = summary.get(res["status"], 0) + 1
+                print("%-40s L%-4d %-18s recheck: %-10s %s" % (f, r["line"], r["op"], res["status"], res.get("caught_by", "")), flush=True)
+        open(os.path.join(wt, f), "w").writelines(src)
+        with open(path, "w") as o:
+            for r in recs:
+                o.write(json.dumps(r) + "\n")
+    finally:
+        subprocess.run(["git", "-C", "/repo", "worktree", "remove", "--force", wt], stdout=subprocess.DEVNULL, stderr=subprocess.DEVNULL)
+        shutil.rmtree(wt, ignore_errors=True)
+
+
 def main():
     ap = argparse.ArgumentParser()
     ap.add_argument("--max", type=int, default=25)
@@ -249,6 +301,7 @@ def main():
     ap.add_argument("--props", default="")
     ap.add_argument("--tier", default="quick")
     ap.add_argument("--resume", action="store_true")
+    ap.add_argument("--recheck", action="store_true", help="re-run the checks for recorded survivors only")
     ap.add_argument("--test-timeout", type=int, default=60)
     args = ap.parse_args()
     fileprops = {}
@@ -267,7 +320,7 @@ def main():
     os.makedirs(os.path.join(HERE, "mutsweep"), exist_ok=True)
     summary = {"lock": threading.Lock()}
     with ThreadPoolExecutor(args.jobs) as ex:
-        futs = [ex.submit(run_file, f, ps, args, summary) for f, ps in sorted(fileprops.items())]
+        futs = [ex.submit(recheck_file if args.recheck else run_file, f, ps, args, summary) for f, ps in sorted(fileprops.items())]
         for fu in futs:
             try:
                 fu.result()
